@@ -251,7 +251,7 @@ func DumpAPIx(api API, who string, hint Extents) (d *Dump) {
 					r := NewCall("READ")
 					r.Fh = fh
 					r.Off = pos
-					r.Cnt = 1 << 20
+					r.Cnt = 1 << 16 // not above the announced rtmax
 					if off+n-pos < r.Cnt {
 						r.Cnt = off + n - pos
 					}
